@@ -140,14 +140,18 @@ fn location_case(rep: &mut Report, input: &[u8], q: &Q, rng: &mut Rng) {
 }
 
 /// Classify where a truncation point falls, from the token being cut.
-fn site_class(prefix: &[u8]) -> String {
+fn site_class(prefix: &[u8], brackets_vector: bool) -> String {
     // inside a string?
     let mut in_str = false;
     let mut esc = false;
     let mut tok_start = 0usize;
     let mut in_comment = false;
+    let mut clean: Vec<u8> = prefix.to_vec();
+    // innermost open construct: true = a list (where a dot after an element is the pair separator)
+    let mut stack: Vec<bool> = Vec::new();
     for (i, &b) in prefix.iter().enumerate() {
         if in_comment {
+            clean[i] = b' ';
             if b == b'\n' {
                 in_comment = false;
                 tok_start = i + 1;
@@ -156,6 +160,7 @@ fn site_class(prefix: &[u8]) -> String {
         }
         if !in_str && b == b';' && !(i >= 2 && &prefix[i - 2..i] == b"#\\") && !(i >= 1 && prefix[i - 1] == b'\\') {
             in_comment = true;
+            clean[i] = b' ';
             continue;
         }
         if !in_str && b == b'"' && ((i >= 2 && &prefix[i - 2..i] == b"#\\") || (i >= 1 && (prefix[i - 1] == b'\\' || prefix[i - 1] == b'?'))) {
@@ -175,6 +180,22 @@ fn site_class(prefix: &[u8]) -> String {
             in_str = true;
             tok_start = i;
         } else if matches!(b, b' ' | b'\n' | b'\t' | b'\r' | 0x0C | b'(' | b')' | b'[' | b']') {
+            // a bracket that is a character literal (#\( ?\( ?( ...) is not structure
+            let is_char_lit = (i >= 2 && &prefix[i - 2..i] == b"#\\") || (i >= 2 && &prefix[i - 2..i] == b"?\\") || (i >= 1 && prefix[i - 1] == b'?' && (i < 2 || !prefix[i - 2].is_ascii_alphanumeric()));
+            match b {
+                _ if is_char_lit => {}
+                b'(' => {
+                    // #( and #u8( / #vu8( open vectors
+                    let is_vec = i >= 1 && (prefix[i - 1] == b'#' || (i >= 2 && prefix[i - 1] == b'8' && prefix[i - 2] == b'u'));
+                    // ... unless the '(' is a character literal #\(
+                    stack.push(!is_vec);
+                }
+                b'[' => stack.push(!brackets_vector),
+                b')' | b']' => {
+                    stack.pop();
+                }
+                _ => {}
+            }
             tok_start = i + 1;
         }
     }
@@ -233,7 +254,18 @@ fn site_class(prefix: &[u8]) -> String {
         return "number".into();
     }
     if t == b"." {
-        return "dot".into();
+        // after a list element (the pair-separator position), after an opener, or elsewhere
+        let before: Vec<u8> = clean[..tok_start].iter().rev().copied().skip_while(|b| matches!(b, b' ' | b'\n' | b'\t' | b'\r' | 0x0C)).take(1).collect();
+        // a dot right after the pair-separator dot is the start of the tail datum
+        let trimmed: Vec<u8> = clean[..tok_start].iter().rev().copied().skip_while(|b| matches!(b, b' ' | b'\n' | b'\t' | b'\r' | 0x0C)).take(2).collect();
+        if trimmed.first() == Some(&b'.') && trimmed.get(1).map_or(true, |b| matches!(b, b' ' | b'\n' | b'\t' | b'\r' | 0x0C | b'(' | b'[' | b')' | b']' | b'"')) {
+            return "dot-top-level".into();
+        }
+        return match before.first() {
+            Some(b'(') | Some(b'[') => "dot".into(),
+            Some(_) if stack.last() == Some(&true) => "dot-after-element".into(),
+            _ => "dot-top-level".into(),
+        };
     }
     if (t[0] == b'+' || t[0] == b'-') && t.len() == 2 && t[1] == b'.' {
         return "sign-dot".into();
@@ -280,6 +312,8 @@ fn truncation_case(rep: &mut Report, text: &[u8], q: &Q, origin: &str) {
         if let Ok(s) = std::str::from_utf8(p) {
             results.push(("str", lexpr::from_str_custom(s, o).err()));
         }
+        let n_variants = results.len();
+        let mut failing: Vec<(&str, lexpr::parse::Error)> = Vec::new();
         for (i, (src, e)) in results.into_iter().enumerate() {
             rep.eval();
             rep.distinct(hash2(base, (k * 4 + i) as u64));
@@ -289,16 +323,24 @@ fn truncation_case(rep: &mut Report, text: &[u8], q: &Q, origin: &str) {
                     if e.classify() == Category::Eof {
                         rep.count("truncation:prefix-eof");
                     } else {
-                        let site = normalise_site(&site_class(p), &err_kind(&e));
-                        rep.violation(
-                            "truncation",
-                            format!("C19:prefix-not-eof:{}:{}", site, err_kind(&e)),
-                            format!("{} of prefix {:?} (first {} of {} bytes of well-formed {:?}) with {}: category {:?} ('{}'), a streaming caller cannot tell 'more data needed' from 'malformed'", src, show(p), k, text.len(), show(text), q.describe(), e.classify(), e),
-                            json!({"text_hex": hex(text), "prefix_len": k, "options_index": q.index(), "source": src, "site": site}),
-                        );
+                        failing.push((src, e));
                     }
                 }
             }
+        }
+        if !failing.is_empty() {
+            // which entry points misreport: all of them (one defect in shared code) or only some
+            // (a discrepancy between the duplicated implementations)
+            let which = if failing.len() == n_variants { "all-entry-points".to_string() } else { failing.iter().map(|(s, _)| *s).collect::<Vec<_>>().join("+") };
+            let (src, e) = &failing[0];
+            let site = normalise_site(&site_class(p, q.brackets_vector), &err_kind(e));
+            let sig = if which == "all-entry-points" { format!("C19:prefix-not-eof:{}:{}", site, err_kind(e)) } else { format!("C19:prefix-not-eof:{}:{}:only={}", site, err_kind(e), which) };
+            rep.violation(
+                "truncation",
+                sig,
+                format!("{} of prefix {:?} (first {} of {} bytes of well-formed {:?}) with {}: category {:?} ('{}'), a streaming caller cannot tell 'more data needed' from 'malformed' [misreporting entry points: {}]", src, show(p), k, text.len(), show(text), q.describe(), e.classify(), e, which),
+                json!({"text_hex": hex(text), "prefix_len": k, "options_index": q.index(), "source": src, "site": site, "entry_points": which}),
+            );
         }
     }
 }
